@@ -26,6 +26,8 @@ CONVERTERS = [
     [mrec("static", "http://s/", ["docs"]), mrec("openapi.json", "http://o/", ["redoc"])],
     # a URI-prefix synonym of one record lies below the canonical URI prefix of another: expansions of the latter look like URIs of the former
     [mrec("obo", "http://p/obo/"), mrec("GO", "http://amigo/GO:", [], ["http://p/obo/GO_", "http://p/obo/x_"]), mrec("ab", "http://p/obo/ab", [], ["http://p/obo/1"])],
+    # the https twin of the canonical URI prefix is a synonym (and the other way round)
+    [mrec("tw", "http://tw/", ["TW"], ["https://tw/"]), mrec("wt", "https://wt/", [], ["http://wt/", "HTTP://WT/"])],
 ]
 UNKNOWN = ["zz", "Go", "urn", "static", "docs", "favicon.ico"]
 SEGMENTS = ["1", "ab", "10.1", "x_y", "a:b", "a:b:c", ":5", "1::2", "5:", "lsid:7", "GO_1"]   # the last three: leading / doubled / trailing delimiter
